@@ -588,8 +588,34 @@ def enum_members(tree, cls):
     return out
 
 
+PARTIAL = "--partial" in sys.argv
+
+
+def guard(thunk):
+    """--partial: a function that leaves the subset is reported and left out; the others are still generated"""
+    try:
+        return thunk()
+    except Unsupported as u:
+        if not PARTIAL:
+            raise
+        return "\0" + str(u)
+
+
+def drop_unsupported(out):
+    res = []
+    for x in out:
+        if x.startswith("\0"):
+            header = res.pop()
+            res.pop()                       # its doc comment
+            name = header.split()[1] if header.startswith("def ") else "?"
+            res.append("-- UNSUPPORTED %s: %s" % (name, x[1:]))
+        else:
+            res.append(x)
+    return res
+
+
 def main():
-    repo = sys.argv[1]
+    repo = [a for a in sys.argv[1:] if not a.startswith("--")][0]
     vp = ast.parse(open(os.path.join(repo, "opcua_tools", "value_parser.py"), encoding="utf-8").read())
     dt = ast.parse(open(os.path.join(repo, "opcua_tools", "ua_data_types.py"), encoding="utf-8").read())
     out = ["import OpcuaModel.Gen.PyPrims",
@@ -599,16 +625,16 @@ def main():
         f = find(vp, "cached_parse_nodeid")
         out.append("/-- `value_parser.cached_parse_nodeid` -/")
         out.append("def cached_parse_nodeid (%s : Str) : Except PyErr (Int × IdType × Str) :=" % f.args.args[0].arg)
-        out.append(Tr().block(f.body, 1))
+        out.append(guard(lambda: Tr().block(f.body, 1)))
         f = find(vp, "parse_nodeid")
         a = [x.arg for x in f.args.args]
         out.append("/-- `value_parser.parse_nodeid`; an absent map / alias table is `none` -/")
         out.append("def parse_nodeid (%s : Str) (%s : Option (List (Int × Int))) (%s : Option (List (Str × NodeId))) : Except PyErr NodeId :=" % tuple(a))
-        out.append(Tr().block(f.body, 1))
+        out.append(guard(lambda: Tr().block(f.body, 1)))
         f = find(dt, "UANodeId.__str__")
         out.append("/-- `UANodeId.__str__` -/")
         out.append("def nodeid_str (self : NodeId) : Except PyErr Str :=")
-        out.append(Tr({"namespace": "ns", "value": "ident", "nodeid_type": "ty"}).block(f.body, 1))
+        out.append(guard(lambda: Tr({"namespace": "ns", "value": "ident", "nodeid_type": "ty"}).block(f.body, 1)))
         if True:
             npm = ast.parse(open(os.path.join(repo, "opcua_tools", "nodeset_parser.py"), encoding="utf-8").read())
             f = find(npm, "extend_namespace_map")
@@ -618,7 +644,7 @@ def main():
             out.append("/-- `nodeset_parser.extend_namespace_map`: returns the final values of the arguments it mutates -/")
             out.append("def extend_namespace_map (%s : List Str) (%s : List Str) (%s : List (Int × Int)) : Except PyErr (%s) :=" %
                        (a[0], a[1], a[2], " × ".join("List Str" if v == a[0] else "List (Int × Int)" for v in vs)))
-            out.append(tr.stmts(f.body, 1, ".ok (%s)" % ", ".join(vs)))
+            out.append(guard(lambda: tr.stmts(f.body, 1, ".ok (%s)" % ", ".join(vs))))
             ug = ast.parse(open(os.path.join(repo, "opcua_tools", "ua_graph.py"), encoding="utf-8").read())
             f = find(ug, "UAGraph._get_namespace_list")
             a = [x.arg for x in f.args.args]
@@ -627,7 +653,7 @@ def main():
             out.append("")
             out.append("/-- `UAGraph._get_namespace_list` (a static method): the dict is an association list in insertion order -/")
             out.append("def get_namespace_list (%s : List (Int × Str)) : Except PyErr (List Str) :=" % a[0])
-            out.append(tr.stmts(f.body, 1, ".error .typeError"))
+            out.append(guard(lambda: tr.stmts(f.body, 1, ".error .typeError")))
             nid = {"namespace": "ns", "value": "ident", "nodeid_type": "ty"}
             consts, enums = module_consts(dt), enum_members(dt, "NodeIdType")
             meths = {"__str__": "nodeid_str", "nodeid_type_value_to_int": "nodeid_type_value_to_int"}
@@ -635,43 +661,43 @@ def main():
             f = find(dt, "UANodeId.nodeid_type_value_to_int")
             out.append("/-- `UANodeId.nodeid_type_value_to_int` -/")
             out.append("def nodeid_type_value_to_int (self : NodeId) : Except PyErr Int :=")
-            out.append(TrAcc(nid, consts, enums, meths).block(f.body, 1))
+            out.append(guard(lambda: TrAcc(nid, consts, enums, meths).block(f.body, 1)))
             f = find(dt, "UANodeId.xml_encode")
             out.append("/-- `UANodeId.xml_encode` -/")
             out.append("def nodeid_xml_encode (self : NodeId) (%s : Bool) : Except PyErr Str :=" % f.args.args[1].arg)
-            out.append(TrAcc(nid, consts, enums, meths).stmts(f.body, 1, ".error .typeError"))
+            out.append(guard(lambda: TrAcc(nid, consts, enums, meths).stmts(f.body, 1, ".error .typeError")))
             f = find(dt, "UANodeId.json_encode")
             out.append("/-- `UANodeId.json_encode` -/")
             out.append("def nodeid_json_encode (self : NodeId) : Except PyErr Str :=")
-            out.append(TrAcc(nid, consts, enums, meths).stmts(f.body, 1, ".error .typeError"))
+            out.append(guard(lambda: TrAcc(nid, consts, enums, meths).stmts(f.body, 1, ".error .typeError")))
             qn = {"namespace_index": "ns", "name": "name"}
             out.append("")
             f = find(dt, "UAQualifiedName.xml_encode")
             out.append("/-- `UAQualifiedName.xml_encode` -/")
             out.append("def qname_xml_encode (self : QName) (%s : Bool) : Except PyErr Str :=" % f.args.args[1].arg)
-            out.append(TrAcc(qn, consts, enums, {}).stmts(f.body, 1, ".error .typeError"))
+            out.append(guard(lambda: TrAcc(qn, consts, enums, {}).stmts(f.body, 1, ".error .typeError")))
             f = find(dt, "UAQualifiedName.json_encode")
             out.append("/-- `UAQualifiedName.json_encode` -/")
             out.append("def qname_json_encode (self : QName) : Except PyErr Str :=")
-            out.append(TrAcc(qn, consts, enums, {}).stmts(f.body, 1, ".error .typeError"))
+            out.append(guard(lambda: TrAcc(qn, consts, enums, {}).stmts(f.body, 1, ".error .typeError")))
             out.append("")
             for cls, kind in (("UASByte", "sbyte"), ("UAByte", "byte"), ("UAInt16", "int16"), ("UAUInt16", "uint16"),
                               ("UAInt32", "int32"), ("UAUInt32", "uint32"), ("UAInt64", "int64"), ("UAUInt64", "uint64")):
                 f = find(dt, cls + ".xml_encode")
                 out.append("/-- `%s.xml_encode`; a missing value (`pd.NA`) is `none` -/" % cls)
                 out.append("def int_xml_encode_%s (self : IntVal) (%s : Bool) : Except PyErr Str :=" % (kind, f.args.args[1].arg))
-                out.append(TrAcc({"value": "value"}, consts, enums, {}).stmts(f.body, 1, ".error .typeError"))
+                out.append(guard(lambda: TrAcc({"value": "value"}, consts, enums, {}).stmts(f.body, 1, ".error .typeError")))
             f = find(dt, "UABoolean.xml_encode")
             out.append("/-- `UABoolean.xml_encode`; a missing value (`pd.NA`) is `none` -/")
             out.append("def bool_xml_encode (self : BoolVal) (%s : Bool) : Except PyErr Str :=" % f.args.args[1].arg)
-            out.append(TrAcc({"value": "value"}, consts, enums, {}).stmts(f.body, 1, ".error .typeError"))
+            out.append(guard(lambda: TrAcc({"value": "value"}, consts, enums, {}).stmts(f.body, 1, ".error .typeError")))
             out.append("")
             for cls, kind in (("UASByte", "sbyte"), ("UAByte", "byte"), ("UAInt16", "int16"), ("UAUInt16", "uint16"),
                               ("UAInt32", "int32"), ("UAUInt32", "uint32")):
                 f = find(dt, cls + ".json_encode")
                 out.append("/-- `%s.json_encode` (the `functools.cache` decorator is not part of the translation); `None` is `none` -/" % cls)
                 out.append("def int_json_encode_%s (self : IntVal) : Except PyErr (Option Str) :=" % kind)
-                out.append(TrAcc({"value": "value"}, consts, enums, {}).block_opt(f.body, 1))
+                out.append(guard(lambda: TrAcc({"value": "value"}, consts, enums, {}).block_opt(f.body, 1)))
             out.append("")
             imports = module_imports(dt)
 
@@ -682,15 +708,15 @@ def main():
             f = find(dt, "UAString.xml_encode")
             out.append("/-- `UAString.xml_encode` (inherited by `UAGuid`); `escape` is `xml.sax.saxutils.escape` -/")
             out.append("def str_xml_encode (self : StrVal) (%s : Bool) : Except PyErr Str :=" % f.args.args[1].arg)
-            out.append(acc({"value": "value"}).stmts(f.body, 1, ".error .typeError"))
+            out.append(guard(lambda: acc({"value": "value"}).stmts(f.body, 1, ".error .typeError")))
             f = find(dt, "UAString.json_encode")
             out.append("/-- `UAString.json_encode` (the `functools.cache` decorator is not part of the translation) -/")
             out.append("def str_json_encode (self : StrVal) : Except PyErr (Option Str) :=")
-            out.append(acc({"value": "value"}).block_opt(f.body, 1))
+            out.append(guard(lambda: acc({"value": "value"}).block_opt(f.body, 1)))
             f = find(dt, "UALocalizedText.xml_encode")
             out.append("/-- `UALocalizedText.xml_encode` -/")
             out.append("def loctext_xml_encode (self : LocText) (%s : Bool) : Except PyErr Str :=" % f.args.args[1].arg)
-            out.append(acc({"text": "text", "locale": "locale"}).stmts(f.body, 1, ".error .typeError"))
+            out.append(guard(lambda: acc({"text": "text", "locale": "locale"}).stmts(f.body, 1, ".error .typeError")))
             f = find(dt, "UALocalizedText.json_encode")
             t = acc({"text": "text", "locale": "locale"})
             a = [x.arg for x in f.args.args]
@@ -699,7 +725,7 @@ def main():
             t.opt_params = (a[1],)
             out.append("/-- `UALocalizedText.json_encode`; the optional `%s` (default `None`) is an `Option` -/" % a[1])
             out.append("def loctext_json_encode (self : LocText) (%s : Option Str) : Except PyErr Str :=" % a[1])
-            out.append(t.stmts(f.body, 1, ".error .typeError"))
+            out.append(guard(lambda: t.stmts(f.body, 1, ".error .typeError")))
             f = find(dt, "UAEUInformation.xml_encode")
             out.append("/-- `UAEUInformation.xml_encode` -/")
             out.append("def euinfo_xml_encode (self : EUInfo) (%s : Bool) : Except PyErr Str :=" % f.args.args[1].arg)
@@ -709,7 +735,7 @@ def main():
         print("UNSUPPORTED: %s" % u, file=sys.stderr)
         sys.exit(3)
     out.append("end Opcua.Gen")
-    print("\n".join(out))
+    print("\n".join(drop_unsupported(out)))
 
 
 main()
